@@ -155,6 +155,9 @@ var c16Reqs = []c16Req{
 	{"i-varinput", "playground", "输入甲\n输出甲 * 2", "甲 = 21"},
 	{"j-file-1", "http", "令甲 = “file-one”\n输出甲", ""},
 	{"k-file-2", "http", "令甲 = “file-two”\n输出甲", ""},
+	// the request object of a bare request (no headers, no query): mutated in place / read
+	{"l-req-mutate", "http", "输入当前请求\n以当前请求之查询参数（写入：“k”、“v”）\n以当前请求之头部（写入：“h”、“v”）\n输出【当前请求之查询参数之长度，当前请求之头部之长度】", ""},
+	{"m-req-read", "http", "输入当前请求\n输出【当前请求之查询参数之长度，当前请求之头部之长度，当前请求之方法，当前请求之路径】", ""},
 }
 
 var c16Dir string
@@ -236,6 +239,42 @@ func c16ReqByName(n string) c16Req {
 	return c16Req{}
 }
 
+// canary: after EVERY case the process must still answer a few read-only requests as a
+// fresh process does; a deviation is attributed to the case that just ran (so that its
+// replay — the case followed by the canary in a fresh process — reproduces it).
+var c16CanaryNames = []string{"m-req-read", "d-read-global", "f-throw", "g-json"}
+var c16CanaryExpected []string
+
+func c16Canary() []string {
+	out := make([]string, len(c16CanaryNames))
+	for i, n := range c16CanaryNames {
+		out[i] = c16Serve(c16NewInterp(), c16ReqByName(n))
+	}
+	return out
+}
+
+// c16CheckCanary returns a failure if the canary deviates from what is expected.
+func c16CheckCanary(cs c16Case) *mc.Failure {
+	if c16CanaryExpected == nil {
+		for _, n := range c16CanaryNames {
+			c16CanaryExpected = append(c16CanaryExpected, c16BaseReqs[n])
+		}
+	}
+	got := c16Canary()
+	for i := range got {
+		if got[i] != c16CanaryExpected[i] {
+			f := &mc.Failure{Kind: "mismatch", Bucket: "left-behind-state:" + c16CanaryNames[i], Case: mc.J(cs),
+				Expected: fmt.Sprintf("after the case, request %s is still answered %q (as in a fresh process)", c16CanaryNames[i], c16CanaryExpected[i]), Observed: fmt.Sprintf("%q", got[i])}
+			c16CanaryExpected = got // re-baseline: only NEW deviations are reported from here on
+			for _, rq := range c16Reqs {
+				c16BaseReqs[rq.Name] = c16Serve(c16NewInterp(), rq)
+			}
+			return f
+		}
+	}
+	return nil
+}
+
 // sequential case: run the polluters, then the probe vector
 func c16CheckSeq(pol []string, shared bool, expected []string) (fail *mc.Failure, observed []string) {
 	var in *exec.Interpreter
@@ -300,8 +339,11 @@ func c16CheckConc(c *mc.Ctx, names []string, bound int) {
 			if want := c16BaseReqs[names[i]]; g != want {
 				c.Fail(mc.Failure{Kind: "mismatch", Bucket: "conc-" + names[i] + "-with-" + strings.Join(names, "+"), Case: mc.J(c16Case{Part: "concurrent", Requests: names, Choices: rec.Choices()}),
 					Expected: fmt.Sprintf("request %s -> %q (its response alone)", names[i], want), Observed: fmt.Sprintf("%q", g)})
-				return
+				break
 			}
+		}
+		if f := c16CheckCanary(c16Case{Part: "concurrent", Requests: names, Choices: rec.Choices()}); f != nil {
+			c.Fail(*f)
 		}
 	}, c.Expired)
 	c.EvalN(n, n)
@@ -314,10 +356,10 @@ func init() {
 	mc.Register(&mc.Check{
 		ID:    "C16",
 		Level: "model_checking",
-		Rule: "Sequential: every sequence P1..Pn (n <= 2 quick, <= 3 over a core subset thorough) of polluter programs — constructor redefinition of predefined types, every method name of every built-in type applied to every predefined value (extracted from the current source), mutation through aliases, assignments / redeclarations of predefined names, library imports and writes, errors at call depth 1-3, handled exceptions, failing constructors, syntax errors, name declarations — run in one process through one shared Interpreter and through fresh ones, followed by the probe vector (12 probes over every predefined / global / library value); invariant: vector == vector computed in a fresh process that ran no polluter. " +
-			"Concurrent (E3): every ordered pair (and triples of a core subset) of 11 requests pushed through the real ZnPlaygroundHandler / ZnHttpHandler sharing one interpreter, under a cooperative scheduler yielding at Execute entry, before every statement and at every 显示; all interleavings of a pair are explored (deviation bound 12), triples with deviation bound 2; invariant: each response == the response of that request alone in a fresh process. A state = one complete schedule.",
+		Rule: "Sequential: every sequence P1..Pn (n <= 2 quick, <= 3 over a core subset thorough) of polluter programs — constructor redefinition of predefined types, every method name of every built-in type applied to every predefined value (extracted from the current source), mutation through aliases, assignments / redeclarations of predefined names, library imports and writes, errors at call depth 1-3, handled exceptions, failing constructors, syntax errors, name declarations — run in one process through one shared Interpreter and through fresh ones, followed by the probe vector (12 probes over every predefined / global / library value); invariant: vector == vector computed in a fresh process that ran no polluter; every ordered pair of the 13 requests served one after the other through the real handlers (second response == its response alone); after EVERY case (sequential or concurrent schedule) a canary of four read-only requests must still be answered as in a fresh process. " +
+			"Concurrent (E3): every ordered pair (and triples of a core subset) of 13 requests (incl. two that mutate / read the request object of a bare HTTP request) pushed through the real ZnPlaygroundHandler / ZnHttpHandler sharing one interpreter, under a cooperative scheduler yielding at Execute entry, before every statement and at every 显示; all interleavings of a pair are explored (deviation bound 12), triples with deviation bound 2; invariant: each response == the response of that request alone in a fresh process. A state = one complete schedule.",
 		Assumptions: []string{
-			"interleavings are at statement granularity; finer-grained data races are the subject of the auxiliary free-running -race pass (thorough), which observes one schedule per run and is not the deciding step",
+			"interleavings are at statement granularity; finer-grained data races (e.g. inside the parser) are the subject of the auxiliary free-running -race pass that the check script runs after the exploration (8 goroutines x 200 requests on one shared interpreter); it observes one schedule per run and is not the deciding step, but a reported race is a violation of the property's last sentence",
 			"the baseline vectors come from fresh processes of the same binary",
 		},
 		Budget: func(tier string) time.Duration {
@@ -374,6 +416,32 @@ func init() {
 					c.Fail(*f)
 					expected = obs // the process is polluted now: only report NEW deviations
 					c.Stat("rebaselined_after_failure", 1)
+				}
+				if f := c16CheckCanary(c16Case{Part: "sequential", Polluters: ps, Shared: shared}); f != nil {
+					c.Fail(*f)
+				}
+			}
+			// sequential request pairs through the real handlers: r1 ; r2, r2 must answer as alone
+			for _, a := range c16Reqs {
+				for _, b := range c16Reqs {
+					idx++
+					if !c.Mine(idx) {
+						continue
+					}
+					names := []string{a.Name, b.Name}
+					c.Case(idx, func() json.RawMessage { return mc.J(c16Case{Part: "request-sequence", Requests: names}) })
+					in := c16NewInterp()
+					c16Serve(in, a)
+					got := c16Serve(in, b)
+					c.Eval(true)
+					c.Stat("sequential_request_pairs", 1)
+					if want := c16BaseReqs[b.Name]; got != want {
+						c.Fail(mc.Failure{Kind: "mismatch", Bucket: "seq-req-" + b.Name + "-after-" + a.Name, Case: mc.J(c16Case{Part: "request-sequence", Requests: names}),
+							Expected: fmt.Sprintf("%q (its response alone)", want), Observed: fmt.Sprintf("%q", got)})
+					}
+					if f := c16CheckCanary(c16Case{Part: "request-sequence", Requests: names}); f != nil {
+						c.Fail(*f)
+					}
 				}
 			}
 			for _, sh := range []bool{true, false} {
@@ -465,9 +533,23 @@ func init() {
 				c.Fail(mc.Failure{Kind: "crash", Observed: err.Error()})
 				return
 			}
+			defer func() {
+				if f := c16CheckCanary(cs); f != nil {
+					c.Fail(*f)
+				}
+			}()
 			if cs.Part == "sequential" {
 				if f, _ := c16CheckSeq(cs.Polluters, cs.Shared, c16BaseProbes); f != nil {
 					c.Fail(*f)
+				}
+				return
+			}
+			if cs.Part == "request-sequence" {
+				in := c16NewInterp()
+				c16Serve(in, c16ReqByName(cs.Requests[0]))
+				got := c16Serve(in, c16ReqByName(cs.Requests[1]))
+				if want := c16BaseReqs[cs.Requests[1]]; got != want {
+					c.Fail(mc.Failure{Kind: "mismatch", Case: raw, Expected: want, Observed: got})
 				}
 				return
 			}
@@ -494,11 +576,18 @@ func init() {
 // the check script in the thorough tier): 8 goroutines x 200 requests.
 func c16Race() string {
 	in := c16NewInterp()
+	// everything the harness itself shares is set up before the goroutines start
+	for _, rq := range c16Reqs {
+		if rq.Handler == "http" {
+			os.WriteFile(filepath.Join(c16TempDir(), rq.Name+".zn"), []byte(rq.Source), 0o644)
+		}
+	}
+	defer os.RemoveAll(c16TempDir())
 	done := make(chan bool)
 	for g := 0; g < 8; g++ {
 		go func(g int) {
 			for i := 0; i < 200; i++ {
-				rq := c16Reqs[(g+i)%9]
+				rq := c16Reqs[(g+i)%len(c16Reqs)]
 				c16Serve(in, rq)
 			}
 			done <- true
